@@ -182,10 +182,10 @@ ImportBlob(s, t, n, drained, c) ==
 \* root selection in imageImportOCIHandleManifest(push = false)
 RootSelect ==
   LET dl == sc.roots
-      ByTag(v) == {i \in 1..Len(dl) : dl[i].tag = v}
+      ByTag(v) == {i \in 1..Len(dl) : dl[i].ref = v}       \* annotation equality
       Pick(S) == dl[CHOOSE i \in S : \A j \in S : i <= j]
   IN IF Len(dl) = 1 THEN [ok |-> TRUE, d |-> dl[1]]
-     ELSE IF sc.sel.by = "digest" THEN [ok |-> TRUE, d |-> [n |-> sc.sel.v, t |-> "none", tag |-> ""]]
+     ELSE IF sc.sel.by = "digest" THEN [ok |-> TRUE, d |-> [n |-> sc.sel.v, t |-> "none", tag |-> "", ref |-> ""]]
      ELSE IF ByTag(sc.sel.v) = {} THEN [ok |-> FALSE, d |-> dl[1]]
      ELSE [ok |-> TRUE, d |-> Pick(ByTag(sc.sel.v))]       \* by = "name" (ImageWithImportName) or "tag" (r.Tag)
 
